@@ -507,6 +507,11 @@ class Folder:
                 return dict.fromkeys(self.ev(node.args[0]), self.ev(node.args[1]))
             if isinstance(f, ast.Name) and f.id == "dict" and not node.args:
                 return {k.arg: self.ev(k.value) for k in node.keywords}
+            # a read-only view of a mapping holds what the mapping holds (types.MappingProxyType(d), dict(d))
+            if norm(f) in ("types.MappingProxyType", "MappingProxyType", "dict") and len(node.args) == 1 and not node.keywords:
+                v = self.ev(node.args[0])
+                if isinstance(v, dict):
+                    return dict(v)
             if isinstance(f, ast.Attribute) and f.attr in ("items", "keys", "values") and not node.args:
                 recv = self.ev(f.value)
                 if isinstance(recv, dict):
